@@ -442,7 +442,7 @@ def chosen_cuts(rng, text, k=3):
 class C12(Prop):
     id = "C12"
     corr_module = "Corr.C12Corr"
-    quick_n = 2900
+    quick_n = 2300
     thorough_n = 30000
     shard_size = 400
     rule = ("texts over {a, b, newline} plus, with lower weight, carriage return (CRLF cut between CR and LF) "
@@ -821,6 +821,21 @@ def real_pipe_checks():
             if not ok:
                 failures.append({"case": {"test": name, "pty": pty, "script": script},
                                  "what": {"exception": got_exc, "stdout": out[-300:], "wanted": want or wantexc}})
+    # the caller's input stream at EOF (F-C12d): the answer has to arrive all the same
+    import io as _io
+    for pty in (False, True):
+        n += 1
+        c = Context(Config())
+        try:
+            r = c.run("sleep 0.2; printf 'P:'; read -t 2 a; echo \"got=$a\"", watchers=[Responder("P:", "x\n")],
+                      hide=True, in_stream=_io.StringIO(""), pty=pty, timeout=20)
+            got_exc, out = None, r.stdout
+        except Exception as e:
+            got_exc, out = type(e).__name__, ""
+        if got_exc or "got=x" not in out:
+            failures.append({"finding": "F-C12d" if not pty else None,
+                             "case": {"test": "input stream at EOF, prompt answered later", "pty": pty},
+                             "what": {"exception": got_exc, "stdout": out[-200:], "wanted": "got=x"}})
     return {"name": "real-pipe", "evaluations": n, "failures": failures,
             "note": "TEST on real Local runs (pipes and pty): every answer reaches the child's stdin once, "
                     "in order, nothing further arrives; a failing responder fails the run for every warn"}
